@@ -23,10 +23,11 @@
 // (60 s); family (c) additionally requires T(2n)/T(n) <= 8 on CPU time.
 //
 // Structure: Run calls one function per space family. Each of the present families is enumerated
-// through short-lived child processes (runner.go: explore) because every failing Parse strands a
-// goroutine on the current tree (finding F12a of C12). A further family — e.g. the exact deadlock
-// analysis under a controlled scheduler — is added by appending a function to the list in run; it
-// receives the same *bex.Ctx and may enumerate in-process with ctx.Mine/ctx.Begin/ctx.Eval directly.
+// through short-lived child processes (runner.go: explore): a child is what may die on a case, and
+// on a tree without the repair of finding F12a (property C12) every failing Parse strands a
+// goroutine, so processes are recycled before memory grows. A further family — e.g. the exact
+// deadlock analysis under a controlled scheduler — is added by appending a function to the list in
+// run; it receives the same *bex.Ctx and may enumerate in-process with ctx.Mine/ctx.Begin/ctx.Eval.
 package main
 
 import (
@@ -45,6 +46,7 @@ func spaceBytesEdge(ctx *bex.Ctx)  { explore(ctx, famBytesEdge) }  // (a) edge c
 func spaceTokens(ctx *bex.Ctx)     { explore(ctx, famTokens) }     // (b) full configurations
 func spaceTokensEdge(ctx *bex.Ctx) { explore(ctx, famTokensEdge) } // (b) edge configurations
 func spaceRepeat(ctx *bex.Ctx)     { explore(ctx, famRepeat) }     // (c) n-fold repetition
+func spaceDeepTable(ctx *bex.Ctx)  { explore(ctx, famDeepTable) }  // (c) deep nesting x 28 priority levels
 func spacePadded(ctx *bex.Ctx)     { explore(ctx, famPadded) }     // (c) padded valid programs
 func spaceBytes6(ctx *bex.Ctx)     { explore(ctx, famBytes6) }     // (a) thorough: 6 symbols, reduced alphabet
 
@@ -52,10 +54,17 @@ func run(ctx *bex.Ctx) {
 	if runAsChild(ctx) { // a child process executes the index range named in its environment
 		return
 	}
+	if ctx.Coop {
+		// Workers of the controlled-scheduler build (bex.Check.CoopWorkers, executable "<self>-coop"):
+		// the space families of the exact deadlock analysis are called here. The families below
+		// need the plain build (real goroutines, child processes of this same executable).
+		return
+	}
 	for _, space := range []func(*bex.Ctx){
 		spaceBytesEdge,
 		spaceTokensEdge,
 		spaceRepeat,
+		spaceDeepTable,
 		spaceBytes,
 		spaceTokens,
 		spacePadded,
@@ -92,7 +101,7 @@ func extra(merged *bex.Result, cov map[string]any) {
 	cov["observations"] = []string{
 		fmt.Sprintf("a NUL byte acts as end of input: %d accepted inputs contain NUL, for %d of them non-blank text behind the NUL was dropped silently (same AST as the prefix); inside a quoted identifier NUL ends the identifier and scanning continues. No property claims otherwise: recorded, not judged",
 			merged.Counters["nul_inputs_accepted"], merged.Counters["nul_truncations"]),
-		fmt.Sprintf("peak number of goroutines in one enumerating process: %d (every Parse that stops before the end of input strands its tokenizer goroutine: finding F12a of C12, not judged here; processes are recycled at %d)",
+		fmt.Sprintf("peak number of goroutines in one enumerating process: %d (a tree without the repair of F12a strands one tokenizer goroutine per Parse that stops before the end of input; that is property C12 and not judged here, enumerating processes are recycled above %d goroutines)",
 			merged.Counters["max_goroutines"], recycleAt),
 		fmt.Sprintf("slowest single call: %d ms CPU; largest measured T(2n)/T(n): %.2f", merged.Counters["max_cpu_ms_one_call"], float64(merged.Counters["max_time_ratio_x100"])/100),
 	}
@@ -107,9 +116,9 @@ func main() {
 			"distinct_nontrivial = distinct input texts (hash of the bytes) accepted by at least one configuration, i.e. inputs that drive tokenizer and parser through the whole text to an AST/function; all other evaluations end in an error value",
 		Assumptions: []string{
 			"outcomes of Parse do not depend on the goroutine schedule (two-process Kahn network over one unbuffered channel); the exact deadlock analysis under a controlled scheduler is a separate space family",
-			"time: CPU time of the process (clock_gettime PROCESS_CPUTIME), best of 3; T(2n)/T(n) <= 8 is a deliberately loose stand-in for linear-ish; unconfirmed or sub-20-ms excesses are not judged",
+			"time: CPU time of the process (clock_gettime PROCESS_CPUTIME), steady state (collector off during the series, one warm-up call), best of 3; T(2n)/T(n) <= 8 is a deliberately loose stand-in for linear-ish (a clean quadratic passes); unconfirmed or sub-20-ms excesses are not judged",
 			"hang = 20 s CPU or 60 s wall (150 s / 300 s for inputs above 4 KiB) inside one call",
-			"stranded tokenizer goroutines after a failing Parse (F12a, property C12) are not judged; enumerating processes are recycled below 150 000 goroutines",
+			"goroutines left behind by a Parse that stopped early (F12a, property C12) are not judged here; enumerating processes are recycled above 150 000 goroutines or 50 000 cases",
 		},
 		QuickBudget:      55 * time.Second,
 		ThoroughBudget:   23 * time.Minute,
